@@ -350,7 +350,36 @@ Section SEM.
     | Some v => Some (ref_step (c_step_ns c) (get_duration s) v)
     | None => None
     end.
+
+  (* THE DEFINITION of a vector aggregation WITHOUT a grouping clause (LogQL / PromQL: `sum(rate(...))` aggregates over all
+     series of the inner vector into ONE series with the empty label set). metric_ref above follows the code, which keeps one
+     series per stream for such a query in both engines (finding agg-without-grouping-keeps-streams); the two references
+     coincide for every script whose vector aggregation carries a by/without clause (metric_ref_def_grouped). *)
+  Definition regroup_def (g : option by_without) (m : lmap) : lmap :=
+    match g with Some b => bw_map (bw_labels b) (bw_by b) m | None => [] end.
+  Definition ref_agg_def (f : agg_fn) (g : option by_without) (v : list vrow) : list vrow :=
+    map (fun w => {| v_labels := v_labels (head_vrow w); v_ts := v_ts (head_vrow w); v_val := eval_agg f (map v_val w) |})
+        (group_by same_lbl_ts (map (fun r => {| v_labels := regroup_def g (v_labels r); v_ts := v_ts r; v_val := v_val r |}) v)).
+  Definition ref_aggop_def (a : aggop) (es : list entry) : option (list vrow) :=
+    match ref_lra (agg_lra a) es with
+    | Some v => Some (ref_cmp (agg_cmp a) (ref_agg_def (agg_f a) (grouping (agg_prefix a) (agg_suffix a)) v))
+    | None => None
+    end.
+  Definition metric_ref_def (s : script) (c : pctx) (es : list entry) : option (list vrow) :=
+    match s with
+    | SAgg a => match ref_aggop_def a es with
+                | Some v => Some (ref_step (c_step_ns c) (get_duration s) v)
+                | None => None end
+    | _ => metric_ref s c es
+    end.
 End SEM.
+
+(* every vector aggregation of the script carries a grouping clause *)
+Definition agg_grouped (s : script) : bool :=
+  match s with
+  | SAgg a => match agg_suffix a, agg_prefix a with None, None => false | _, _ => true end
+  | _ => true
+  end.
 
 (* ================= the 15-second shortcut ================= *)
 (* The roll-up table metrics_15s holds, per stream and 15-second slot, the number of lines: it has no line
